@@ -5,4 +5,5 @@ INVARIANT Mirror
 INVARIANT Usable
 INVARIANT KeysAgree
 INVARIANT Separation
+INVARIANT EchoOrRefuse
 CHECK_DEADLOCK FALSE
